@@ -268,6 +268,44 @@ def has_hdr_atom(t):
     return False
 
 
+def _hx(b): return b.hex() or "-"
+def _opt(b): return "none" if b is None else _hx(b)
+def _txt(t): return t.encode("utf-8", "surrogatepass")
+
+
+def flow_view(f):
+    """the parts of a real flow the operators look at, as the 20 fields of the driver op `lv` (Driver/C42.lean) -
+    field access only; what is searched and with which flags is the model's prediction"""
+    kind = ("http" if isinstance(f, http.HTTPFlow) else "tcp" if isinstance(f, tcp.TCPFlow) else
+            "udp" if isinstance(f, udp.UDPFlow) else "dns" if isinstance(f, dns.DNSFlow) else "other")
+    def hmsg(m):
+        if m is None: return "none"
+        cts = [v for k, v in m.headers.fields if k.lower() == b"content-type"]
+        raw, ce = m.raw_content, m.headers.get("content-encoding")
+        dec = None if (raw is None or not ce) else (ref_decode(ce, raw) if raw else raw)
+        return "/".join([_hx(bytes(m.headers)), ",".join(_hx(v) for v in cts) or ".", _opt(raw),
+                         "none" if ce is None else _hx(_txt(ce)), "fail" if dec is None else _hx(dec)])
+    def dirs(ms): return ",".join(("c:" if m.from_client else "s:") + _hx(m.content) for m in ms) or "."
+    H = kind == "http"; D = kind == "dns"
+    req = f.request if (H or D) else None
+    resp = f.response if (H or D) else None
+    addr = lambda a: None if not a else _txt("%s:%s" % (a[0], a[1]))
+    rep = {None: "none", "request": "request", "response": "response"}.get(f.is_replay, "other")
+    return [kind, hmsg(req) if H else "none", hmsg(resp) if H else "none",
+            _hx(req.data.method) if H else "-", _hx(_txt(req.host)) if H else "-", _hx(_txt(req.pretty_host)) if H else "-",
+            _hx(_txt(req.pretty_url)) if H else "-", str(resp.status_code) if H and resp else "0",
+            ("none" if f.websocket is None else dirs(f.websocket.messages)) if H else "none",
+            dirs(f.messages) if kind in ("tcp", "udp") else ".",
+            _opt(str(req).encode() if D and req else None), _opt(str(resp).encode() if D and resp else None),
+            _opt(_txt(req.questions[0].name) if D and req and req.questions else None),
+            _opt(addr(f.client_conn.peername if f.client_conn else None)), _opt(addr(f.server_conn.address if f.server_conn else None)),
+            _hx(_txt("\n".join(f"{k}: {v}" for k, v in f.metadata.items()))), _hx(_txt(f.marked)), _hx(_txt(f.comment)),
+            "1" if f.error else "0", rep]
+
+
+INT_PROBES = [200, 404, 301, 204, 500, 0, 7]
+
+
 def compiles(code, arg):
     spec = REF_REX.get(code)
     binary = spec[0] if spec else issubclass(CLS[code], ff._BinRex)
@@ -527,7 +565,16 @@ class Check(PropertyCheck):
                   "verdicts), double negation, De Morgan, flattening, permutation invariance, absorption of the one-member wrapper, "
                   "eval_total; the body operators' reading of an HTTP message (`searched` = get_content(strict=False) with the "
                   "content decoder as a parameter): body_searched / body_searched_some / bodyLeaf_total - a verdict on every flow, "
-                  "searching the decoded bytes when the Content-Encoding can be applied and the bytes as received when it cannot. "
+                  "searching the decoded bytes when the Content-Encoding can be applied and the bytes as received when it cannot; "
+                  "which part of a flow every operator reads and with which flags (Model/C42_Leaf.lean `leafReads` / `unaryV` / `intV` "
+                  "over an abstract flow view, transcribed from the `__call__` methods, regex engine and content decoder as "
+                  "parameters): rex_flags_pinned (IGNORECASE for every regex operator, MULTILINE exactly ~h ~hq ~hs ~meta ~comment, "
+                  "DOTALL exactly ~b ~bq ~bs, bytes/str pattern - pinned against tables regenerated from the classes), doc_eval and "
+                  "parse_render_documented (a documented rendering is accepted and its verdict is the table's reading of the tree), "
+                  "only_http / only_gating (the @only decorators), both_sides_split (~b = ~bq or ~bs, ~h = ~hq or ~hs, ~t = ~tq or "
+                  "~ts on every flow), unary_table (~q = not ~s on HTTP/DNS, ~replay = ~replayq or ~replays, ~all); the fuel of the "
+                  "parser model is immaterial: parse_fuel_independent / parseStruct_any_fuel (any fuel larger than the text gives "
+                  "the same parse), parse_consumes (every parser returns a suffix no longer than its input). "
                   "The model transcribes the pyparsing grammar of flowfilter._make (MatchFirst order of the operator tables, "
                   "WordEnd(alphanums), CharsNotIn words, QuotedString unescaping as pyparsing 3.3.2 really does it, "
                   "infix_notation([!,&,|]) inside OneOrMore, groups holding a whole expression, tabs kept); the operator tables are "
@@ -540,14 +587,18 @@ class Check(PropertyCheck):
                   "model predicts the string, the code parses it); the real code is checked directly against the tree that was "
                   "written and an independent reference reading of every operator (bodies decoded by an independent decoder), a filter "
                   "call that raises on any pool flow is a failure of its own clause, and for every HTTP message of the pool the model "
-                  "predicts, from the raw bytes, the header and the independent decoder's outcome, what get_content(strict=False) returns.")
+                  "predicts, from the raw bytes, the header and the independent decoder's outcome, what get_content(strict=False) returns; "
+                  "and for every pool flow the model is given only the flow's fields (`view` cases) and PREDICTS which byte strings "
+                  "every operator searches and with which flags - the verdicts formed from that with CPython's re must equal those of "
+                  "the real leaf objects for every operator x ~100 probe regexes, every unary operator and ~c.")
     level_note = ("still assumed / outside the proofs: the regex engine is a parameter (`compiles`, per-leaf verdicts `Sem`): the "
-                  "theorems hold for every engine, and the generator only renders compiling regexes; WHICH PART OF A FLOW each "
-                  "operator's regex is applied to, and what the unary operators test, is outside the Lean model and is checked only "
-                  "against the hand-written reference reading (one recorded deviation: F-C42a, ~h/~hq/~hs and `$`; its classifier is "
-                  "self-tested against near misses on every run); pyparsing itself is modelled, not verified - the tie is "
-                  "differential; the model's paren-nesting fuel (len+1) and loop fuel are sufficient by construction but only the "
-                  "rendering/printing theorems, not a general fuel-independence lemma, are proved; int() of more than 4300 digits "
+                  "theorems hold for every engine, and the generator only renders compiling regexes; the content decoder is a parameter "
+                  "too; which part of a flow each operator reads is now a Lean transcription tied on the whole pool (the extraction of "
+                  "the view fields from the real flow objects - bytes(headers), pretty_url, str(dns message), ... - is plain field "
+                  "access in the harness and is trusted); the hand-written Python reference stays as the independent oracle (one "
+                  "recorded deviation: F-C42a, ~h/~hq/~hs read the CRLF-joined block - the model transcribes what the code does, the "
+                  "reference what the documentation says; its classifier is self-tested against near misses on every run); pyparsing itself is modelled, not verified - the tie is "
+                  "differential; int() of more than 4300 digits "
                   "(ValueError) and lone surrogates are outside the generated domain; parenthesis nesting in generated cases is "
                   "capped (2 quick / 3 thorough, most cases have none) because pyparsing's infix_notation takes time exponential in "
                   "it (~10 ms without, ~100 ms with one group, up to 1 s with two levels, minutes for some 3-level expressions of 200 "
@@ -558,7 +609,7 @@ class Check(PropertyCheck):
             "precedence levels (writable without parentheses, up to 4-5 levels deep), 25% arbitrary nesting up to the tier depth "
             "(4 quick / 6 thorough), each rendered once with random layout under a per-case budget of parenthesised groups "
             "(quick 80% none / 17% one / 3% two levels; thorough 50/30/16/4% up to three levels; a case whose real parse exceeds 4 s / 12 s is skipped); thorough first enumerates every "
-            "tree of depth <=2 over 5 atoms (one per leaf kind) in canonical and random layout; first of all one `body` case per HTTP message of the pool (what the body operators search) and the body operators "
+            "tree of depth <=2 over 5 atoms (one per leaf kind) in canonical and random layout; first of all one `view` case per pool flow (every leaf of the table, model-predicted vs real), one `body` case per HTTP message of the pool (what the body operators search) and the body operators "
             "alone and under every connective with needles that occur only in the bytes as received / only in the decoded bytes / "
             "nowhere, evaluated on the whole pool (Content-Encoding unknown, known-but-wrong, several codings, identity, empty, "
             "correct gzip/deflate/br/zstd, streamed; on the request, the response, both); then, for every regex operator, pairs of regexes that differ only in the case of an escape class "
@@ -586,6 +637,8 @@ class Check(PropertyCheck):
         def chars(c): return "[" + ", ".join("'%s'" % ch for ch in c) + "]"
         def lst(xs): return "[" + ", ".join(chars(x) for x in xs) + "]"
         for c in UNARY + REX + INT: assert re.fullmatch(r"[A-Za-z0-9]+", c), c
+        for c in ff.filter_rex: assert not (c.flags & ~(re.MULTILINE | re.DOTALL)), c
+        for x in ff.FAsset.ASSET_TYPES: assert "'" not in x.pattern.decode("ascii") and "\\" not in x.pattern.decode("ascii") and x.flags & re.IGNORECASE == 0
         src = ("/- GENERATED by harness/c42.py (Check.translate) from mitmproxy/flowfilter.py: filter_unary / filter_rex / filter_int\n"
                "   operator codes in MatchFirst order, and the code of the operator a naked regex stands for. Do not edit. -/\n"
                "namespace MitmVerif.C42.Gen\n\n"
@@ -596,6 +649,15 @@ class Check(PropertyCheck):
                "/-- " + " ".join("~" + c for c in INT) + " -/\n"
                f"def intCodes : List (List Char) := {lst(INT)}\n"
                f"def bareCode : List Char := {chars(BARE)}\n\n"
+               "/-- operators whose pattern is compiled from `expr.encode()` (`_BinRex`) -/\n"
+               f"def rexBin : List (List Char) := {lst([c.code for c in ff.filter_rex if issubclass(c, ff._BinRex)])}\n"
+               "/-- operators whose class sets re.MULTILINE / re.DOTALL -/\n"
+               f"def rexMultiline : List (List Char) := {lst([c.code for c in ff.filter_rex if c.flags & re.MULTILINE])}\n"
+               f"def rexDotall : List (List Char) := {lst([c.code for c in ff.filter_rex if c.flags & re.DOTALL])}\n"
+               "/-- every filter regex is compiled with re.IGNORECASE (`maybe_ignore_case`, MITMPROXY_CASE_SENSITIVE_FILTERS unset) -/\n"
+               f"def ignoreCase : Bool := {'true' if ff.maybe_ignore_case & re.IGNORECASE else 'false'}\n"
+               "/-- `FAsset.ASSET_TYPES` (bytes patterns, compiled without flags) -/\n"
+               f"def assetPatterns : List (List Char) := {lst([x.pattern.decode('ascii') for x in ff.FAsset.ASSET_TYPES])}\n\n"
                "end MitmVerif.C42.Gen\n")
         return {"MitmVerif/Gen/C42.lean": src}
 
@@ -629,6 +691,8 @@ class Check(PropertyCheck):
         if tier == "thorough":
             for c in self.exhaustive(tier): yield c
         if self.pool is None: self.setup(tier)
+        for i in range(len(self.pool)):
+            yield {"kind": "view", "flow": i}          # every leaf of the table on this flow: predicted by the model vs real
         for i, f in enumerate(self.pool):
             if isinstance(f, http.HTTPFlow):
                 yield {"kind": "body", "flow": i, "side": "request"}
@@ -763,7 +827,7 @@ class Check(PropertyCheck):
         raw cases: one character dropped"""
         from common.prng import Rng
         rng = Rng(7)
-        if case.get("kind") == "body":
+        if case.get("kind") in ("body", "view"):
             return
         if case.get("kind") == "seq":
             return      # not shrunk: a shorter sequence would be judged in a different history of the process
@@ -834,7 +898,7 @@ class Check(PropertyCheck):
         if items is None: return self._mobs_one(case, replies)
         out, k = [], 0
         for it in items:
-            n = 1 if it["kind"] == "body" else 1 + (1 if it.get("conc") else 0) + (1 if it["kind"] == "render" else 0)
+            n = 1 if it["kind"] in ("body", "view") else 1 + (1 if it.get("conc") else 0) + (1 if it["kind"] == "render" else 0)
             out.append(self._mobs_one(it, replies[k:k + n])); k += n
         return out
 
@@ -877,8 +941,62 @@ class Check(PropertyCheck):
             signal.signal(signal.SIGALRM, old_handler)
             if old[0] > 0: signal.setitimer(signal.ITIMER_REAL, max(0.01, old[0] - (time.time() - t0)))
 
+    def _probes(self, code):
+        if not hasattr(self, "_probe_cache"): self._probe_cache = {}
+        if code not in self._probe_cache:
+            self._probe_cache[code] = [a for a in dict.fromkeys(ARGS) if compiles(code, a)]
+        return self._probe_cache[code]
+
+    def _leaf(self, code, arg):
+        if not hasattr(self, "_leaf_cache"): self._leaf_cache = {}
+        k = (code, arg)
+        if k not in self._leaf_cache:
+            self._leaf_cache[k] = CLS[code]() if arg is None else CLS[code](arg)
+        return self._leaf_cache[k]
+
+    def _predict_view(self, reply):
+        """the leaf verdicts the model predicts: the driver says which byte strings each operator searches and with which
+        flags (pattern kind, IGNORECASE, MULTILINE, DOTALL); the regex engine (the parameter) is CPython's re"""
+        rexp, unp, intp = reply.split("|")
+        lst = lambda t: [] if t == "." else [bytes.fromhex(x) if x != "-" else b"" for x in t.split(",")]
+        out = {"rex": {}, "unary": {}, "int": {}}
+        for ent in rexp.split(";"):
+            code, _, rest = ent.partition("=")
+            fl, _, subj = rest.partition(":")
+            if code == "@a":
+                pats, vals = lst(fl), lst(subj)
+                out["unary"]["a"] = "1" if any(re.search(p, v) for p in pats for v in vals) else "0"
+                continue
+            binary = fl[0] == "1"
+            flags = (re.IGNORECASE if fl[1] == "1" else 0) | (re.MULTILINE if fl[2] == "1" else 0) | (re.DOTALL if fl[3] == "1" else 0)
+            subs = lst(subj) if binary else [x.decode("utf-8", "surrogatepass") for x in lst(subj)]
+            bits = []
+            if not hasattr(self, "_rx_cache"): self._rx_cache = {}
+            for a in self._probes(code):
+                rx = self._rx_cache.get((a, binary, flags))
+                if rx is None: rx = self._rx_cache[(a, binary, flags)] = re.compile(a.encode() if binary else a, flags)
+                bits.append("1" if any(rx.search(x) for x in subs) else "0")
+            out["rex"][code] = "".join(bits)
+        for ent in unp.split(","):
+            code, _, v = ent.partition("=")
+            out["unary"][code] = v
+        for ent in intp.split(","):
+            code, _, v = ent.partition("=")
+            out["int"][code] = "".join("1" if v != "none" and int(v) == n else "0" for n in INT_PROBES)
+        return out
+
     def _impl_one(self, case):
         if self.pool is None: self.setup("quick")
+        if case["kind"] == "view":
+            # the verdict of every leaf of the table (every regex operator x every probe regex, every unary operator,
+            # ~c x probe codes) from the REAL leaf objects on one pool flow
+            f = self.pool[case["flow"]]
+            def call(leaf):
+                try: return "1" if leaf(f) else "0"
+                except Exception: return "X"
+            return {"rex": {c: "".join(call(self._leaf(c, a)) for a in self._probes(c)) for c in REX},
+                    "unary": {c: call(self._leaf(c, None)) for c in UNARY},
+                    "int": {c: "".join(call(self._leaf(c, n)) for n in INT_PROBES) for c in INT}}
         if case["kind"] == "body":
             b = getattr(self.pool[case["flow"]], case["side"]).get_content(strict=False)
             return {"searched": "none" if b is None else (b.hex() or "-")}
@@ -940,6 +1058,7 @@ class Check(PropertyCheck):
 
     # ---- the property, as a predicate over the implementation's observable -------------------
     def _oracle_one(self, case, obs):
+        if case["kind"] == "view": return []      # a tie only: the oracle clauses for leaves are asked through render cases
         if case["kind"] == "body":
             # what a body operator searches: decoded when the Content-Encoding can be applied, as received when it cannot
             msg = getattr(self.pool[case["flow"]], case["side"])
@@ -1042,6 +1161,8 @@ class Check(PropertyCheck):
 
     # ---- model tie ---------------------------------------------------------------------------------
     def _lines_one(self, case):
+        if case["kind"] == "view":
+            return ["lv " + " ".join(flow_view(self.pool[case["flow"]]))]
         if case["kind"] == "body":
             # the model (Model/C42_Body.lean `searched`) is given the raw bytes, the header value and the outcome of the
             # independent decoder, and predicts what is searched
@@ -1063,6 +1184,7 @@ class Check(PropertyCheck):
         return lines
 
     def _mobs_one(self, case, replies):
+        if case["kind"] == "view": return self._predict_view(replies[0]) if "|" in replies[0] else replies[0]
         if case["kind"] == "body": return replies[0]
         r, extra = replies[0], list(replies[1:])      # extra: the `rn` reply (if the case carries its layout), the `pr` reply
         if r == "reject": return ["reject", None] + extra
@@ -1074,6 +1196,7 @@ class Check(PropertyCheck):
         return [shape, v if v != "-" else None] + extra
 
     def _iview_one(self, case, obs):
+        if case["kind"] == "view": return obs
         if case["kind"] == "body": return obs["searched"]
         out = [obs["shape"], obs["v"]]
         if case.get("conc"):
@@ -1085,11 +1208,13 @@ class Check(PropertyCheck):
         return out
 
     def _classify_one(self, case, obs):
+        if case["kind"] == "view": return "view:%d" % case["flow"]
         if case["kind"] == "body": return "body:%d:%s" % (case["flow"], case["side"])
         if case["kind"] == "render" and tree_ops(case["tree"]) == 0 and case["tree"][0] == "U": return None
         return case["s_hex"]
 
     def _branches_one(self, case, obs):
+        if case["kind"] == "view": return ["view", "view:" + flow_view(self.pool[case["flow"]])[0]]
         if case["kind"] == "body": return ["body", "body:" + ("none" if obs["searched"] == "none" else "some")]
         out = [case["kind"], "accepted" if obs["shape"] != "reject" else "rejected"]
         s = untx(case["s_hex"])
